@@ -846,17 +846,28 @@ def _guarded_lazy(node: ast.AST, attr: Optional[str], pm: Dict[ast.AST, ast.AST]
     """Store to self.<attr> that is control dependent on a test of the same attribute."""
     if not attr:
         return False
+    def mentions(test) -> bool:
+        for a in ast.walk(test):
+            if isinstance(a, ast.Attribute) and isinstance(a.value, ast.Name) and a.value.id == 'self' \
+                    and a.attr == attr:
+                return True
+            if isinstance(a, ast.Call) and isinstance(a.func, ast.Name) and a.func.id == 'hasattr' \
+                    and len(a.args) == 2 and isinstance(a.args[1], ast.Constant) and a.args[1].value == attr:
+                return True
+        return False
     cur = node
     while cur in pm:
         par = pm[cur]
-        if isinstance(par, ast.If) and cur in par.body:
-            for a in ast.walk(par.test):
-                if isinstance(a, ast.Attribute) and isinstance(a.value, ast.Name) and a.value.id == 'self' \
-                        and a.attr == attr:
-                    return True
-                if isinstance(a, ast.Call) and isinstance(a.func, ast.Name) and a.func.id == 'hasattr' \
-                        and len(a.args) == 2 and isinstance(a.args[1], ast.Constant) and a.args[1].value == attr:
-                    return True
+        if isinstance(par, ast.If) and cur in par.body and mentions(par.test):
+            return True
+        # guard-clause form: `if <already initialised>: return ...` earlier in the same block
+        for field in ('body', 'orelse', 'finalbody'):
+            block = getattr(par, field, None)
+            if isinstance(block, list) and cur in block:
+                for prev in block[:block.index(cur)]:
+                    if isinstance(prev, ast.If) and mentions(prev.test) and prev.body and \
+                            isinstance(prev.body[-1], (ast.Return, ast.Raise, ast.Continue)):
+                        return True
         cur = par
     return False
 
